@@ -367,7 +367,9 @@ def structural(ctx0):
         for t in g.ids(lambda n: n.kind == "test"):
             e = g.node(t).ast
             if isinstance(e, ast.Compare) and len(e.ops) == 1 and isinstance(e.ops[0], (ast.Is, ast.IsNot)) and isinstance(e.left, ast.Name):
-                dv, sent = _single_def(e.left.id), e.comparators[0]
+                rds = reaching_defs(g, e.left.id, t)
+                dvs = [v for d_ in rds for t_, v in (assigned_pairs(g.node(d_).ast) if isinstance(g.node(d_).ast, ast.Assign) else []) if isinstance(t_, ast.Name) and t_.id == e.left.id]
+                dv, sent = (dvs[0] if len(rds) == 1 and len(dvs) == 1 else None), e.comparators[0]
                 if isinstance(dv, ast.Call) and dotted(dv.func) == "getattr" and len(dv.args) == 3 and src(dv.args[0]) == "self" and const_is(dv.args[1], "first") \
                         and src(dv.args[2]) == src(sent):
                     sd = _single_def(sent.id) if isinstance(sent, ast.Name) else sent
@@ -412,9 +414,18 @@ def structural(ctx0):
             w = edge_path(g, [r], [g.exit], avoid_nodes=clear, strict=True)
             ctx.check(w is None, "segmentation/first-block-consumed-once", ctx.construct(q, g.node(r).ast),
                       "a stashed first block stays in self.first after its packet was consumed: it is taken as the header of the next packet", witness=g.describe(w))
-            ctx.check(bool(stash_t) and guarded_by_edges(g, r, [(t, "T") for t in stash_t]), "segmentation/first-block-consumed-once", ctx.construct(q, g.node(r).ast) + " | guard",
+            ctx.check(guarded_by_edges(g, r, stash_present), "segmentation/first-block-consumed-once", ctx.construct(q, g.node(r).ast) + " | guard",
                       "self.first is read although it may not exist")
-        ctx.check(bool(reuse), "segmentation/first-block-kept", q + " | <reuse>", "the stashed first block is never used again")
+        # read with a default (getattr(self, "first", <sentinel>)): always safe; the stashed block must be cleared on the paths where it was present
+        reuse_d = stmts(g, lambda st: isinstance(st, ast.Assign) and any(isinstance(t, ast.Name) and t.id == first_name and isinstance(v, ast.Call) and dotted(v.func) == "getattr"
+                                                                          and len(v.args) == 3 and src(v.args[0]) == "self" and const_is(v.args[1], "first") for t, v in assigned_pairs(st)))
+        for r in reuse_d:
+            starts = [d for t, lab in stash_present for d in succ_on(g, t, lab)]
+            w = edge_path(g, starts, [g.exit], avoid_nodes=clear)
+            ctx.check(w is None, "segmentation/first-block-consumed-once", ctx.construct(q, g.node(r).ast),
+                      "a stashed first block stays in self.first after its packet was consumed: it is taken as the header of the next packet", witness=g.describe(w))
+        need(ctx, reuse or reuse_d, "getPacket: the stashed first block read back (first = self.first / getattr(self, 'first', <sentinel>))")
+        ctx.ok("segmentation/first-block-kept", q + " | <reuse>")
     with abstain(ctx0, 's/getPacket/lengths', 'receiver/ and tamper/ (bounded)'):
         ctx.need(_ok_gp, 'anchors of getPacket (section skipped)')
         def is_mod(l):
@@ -769,6 +780,9 @@ def structural(ctx0):
                 ab = {src(v.left), src(v.comparators[0])}
             else:
                 ab = None
+            if v is not None and ab is not None:
+                inline_dig = {src(a) for a in ast.walk(v) if isinstance(a, ast.Call) and call_attr(a) == "digest" and src(a) in ab}
+                dig = dig | inline_dig
             if ab is not None and ab & dig:
                 seen_cmp = True
                 ctx.check(ab == {macp} | (ab & dig) and len(ab) == 2, "mac/whole-digest-compared", ctx.construct(q, g.node(r).ast),
